@@ -201,6 +201,9 @@ class DSession:
         self.config.hook.pytest_testnodedown(node=node, error=None)
         if node.workeroutput["exitstatus"] == 2:  # keyboard-interrupt
             self.shouldstop = f"{node} received keyboard-interrupt"
+            # The run stops: tell the others now, so that what this node
+            # still held is not handed to them ahead of the shutdown signal.
+            self.triggershutdown()
             self.worker_errordown(node, "keyboard-interrupt")
             return
         shouldfail = node.workeroutput["shouldfail"]
